@@ -31,12 +31,12 @@ type c20Case struct {
 }
 
 var c20Ops = []string{"snap:pass", "snap:added", "snap:updated", "snap:failed", "json:invalid", "json:matcher", "json:added", "yaml:pass", "yaml:matcher",
-	"ssnap:added", "ssnap:failed", "sjson:updated", "skip", "skipf", "skipnow"}
+	"ssnap:added", "ssnap:failed", "sjson:updated", "skip", "skipf", "skipnow", "skipchild"}
 
 // c20Want: the outcome class of an op (off CI).
 func c20Want(op string, ci bool) string {
 	switch op {
-	case "skip", "skipf", "skipnow":
+	case "skip", "skipf", "skipnow", "skipchild":
 		return "skipped"
 	}
 	k := op[strings.Index(op, ":")+1:]
@@ -97,6 +97,9 @@ func c20Do(dir string, name, op string, t *vfT) string {
 		Skipf(t, "why %s", "x")
 	case "skipnow":
 		SkipNow(t)
+	case "skipchild":
+		// a subtest (see c20Names: named <previous test>/child) skipping itself
+		Skip(t, "child")
 	default:
 		api, k := op[:strings.Index(op, ":")], op[strings.Index(op, ":")+1:]
 		old, neu := c20Vals(api)
@@ -261,7 +264,11 @@ func c20CheckSummary(out string, want map[string]int, staleTests, staleFiles []s
 
 func c20Names(ops []string, prefix string) []string {
 	var n []string
-	for i := range ops {
+	for i, op := range ops {
+		if op == "skipchild" && i > 0 {
+			n = append(n, n[i-1]+"/child")
+			continue
+		}
 		n = append(n, fmt.Sprintf("Test%s%d", prefix, i))
 	}
 	return n
